@@ -44,6 +44,14 @@ class _CompoundLatency(LatencyDistribution):
         return Duration.from_seconds(base_dur.to_seconds() + extra_dur.to_seconds())
 
 
+def _stack_latency(base: LatencyDistribution, extras: list[LatencyDistribution]) -> LatencyDistribution:
+    """The configured latency plus every currently injected extra."""
+    result = base
+    for extra in extras:
+        result = _CompoundLatency(result, extra)
+    return result
+
+
 @dataclass(frozen=True)
 class InjectLatency:
     """Add extra latency to a network link for a time window.
@@ -75,13 +83,19 @@ class InjectLatency:
         if link is None:
             raise ValueError(f"No link found: {self.source_name} -> {self.dest_name}")
 
-        original_latency = link.latency
         extra_dist = ConstantLatency(self.extra_ms / 1000.0)
         src = self.source_name
         dst = self.dest_name
 
         def activate(e: Event) -> None:
-            link.latency = _CompoundLatency(original_latency, extra_dist)
+            # Windows on one link may overlap: stack the extras on the configured
+            # latency and restore it only when the last window has ended.
+            active = getattr(link, "_injected_latencies", None)
+            if not active:
+                active = link._injected_latencies = []
+                link._configured_latency = link.latency
+            active.append(extra_dist)
+            link.latency = _stack_latency(link._configured_latency, active)
             logger.info(
                 "[FaultInjection] Injected +%sms latency on %s -> %s at %s",
                 self.extra_ms,
@@ -91,7 +105,10 @@ class InjectLatency:
             )
 
         def deactivate(e: Event) -> None:
-            link.latency = original_latency
+            active = getattr(link, "_injected_latencies", [])
+            if extra_dist in active:
+                active.remove(extra_dist)
+                link.latency = _stack_latency(link._configured_latency, active)
             logger.info(
                 "[FaultInjection] Restored latency on %s -> %s at %s",
                 src,
@@ -151,13 +168,20 @@ class InjectPacketLoss:
         if link is None:
             raise ValueError(f"No link found: {self.source_name} -> {self.dest_name}")
 
-        original_loss = link.packet_loss_rate
         src = self.source_name
         dst = self.dest_name
         extra = self.loss_rate
+        token = object()
 
         def activate(e: Event) -> None:
-            link.packet_loss_rate = min(1.0, original_loss + extra)
+            # Windows on one link may overlap: add up the injected rates on the
+            # configured one and restore it only when the last window has ended.
+            active = getattr(link, "_injected_loss", None)
+            if not active:
+                active = link._injected_loss = {}
+                link._configured_loss = link.packet_loss_rate
+            active[token] = extra
+            link.packet_loss_rate = min(1.0, link._configured_loss + sum(active.values()))
             logger.info(
                 "[FaultInjection] Injected +%.1f%% packet loss on %s -> %s at %s",
                 extra * 100,
@@ -167,7 +191,10 @@ class InjectPacketLoss:
             )
 
         def deactivate(e: Event) -> None:
-            link.packet_loss_rate = original_loss
+            active = getattr(link, "_injected_loss", {})
+            if token in active:
+                del active[token]
+                link.packet_loss_rate = min(1.0, link._configured_loss + sum(active.values()))
             logger.info(
                 "[FaultInjection] Restored packet loss on %s -> %s at %s",
                 src,
